@@ -68,6 +68,12 @@ BAD = {"empty_tuple": (), "empty_str": "", "neg": (-1,), "float": (1.5,), "empty
        "neg_part": ("a", -2), "list": ["a"]}
 
 
+def fresh(name):
+    """The name as a tuple whose integer parts are *new* int objects (CPython shares only small ints;
+    names computed independently at run time are not the same objects)."""
+    return tuple(int(str(x)) if isinstance(x, int) else str(x) + "" for x in name)
+
+
 def conflict(n1, n2):
     """Equal, or one a prefix of the other (parts compared with Python ==, so '0' != 0)."""
     k = min(len(n1), len(n2))
@@ -155,7 +161,7 @@ def check(spec, stats):
                 raise Violation("C18/out-of-bounds-accepted", f"{where}: accepted at address {oob:#x}")
             continue
         if op[0] == "res":
-            name = tuple(op[2])
+            name = fresh(op[2])
             new = [name]
             other_reason = frozen[i]
             call = lambda: m.add_resource(Res(), name=name, size=1)
@@ -163,7 +169,7 @@ def check(spec, stats):
             j = op[2]
             if j <= i:
                 continue
-            name = None if op[3] is None else tuple(op[3])
+            name = None if op[3] is None else fresh(op[3])
             new = list(visible[j]) if name is None else [name]
             other_reason = frozen[i] or j in children[i]
             if name is None:
